@@ -379,7 +379,9 @@ def write_evidence(pid, tier, seed, level, rule, assumptions, merged, wall, know
         "wall_s": round(wall, 2),
         "violations": len(merged["violations"]),
     }
-    d = os.path.join(VERIF, "evidence")
+    # exploratory runs (other seeds, mutated trees under VERIF_REPO) set VERIF_EVIDENCE_DIR so that evidence/ keeps what the registered
+    # commands wrote against /repo
+    d = os.environ.get("VERIF_EVIDENCE_DIR") or os.path.join(VERIF, "evidence")
     os.makedirs(d, exist_ok=True)
     path = os.path.join(d, f"{pid}.json")
     tmp = path + f".tmp{os.getpid()}"
